@@ -117,6 +117,8 @@ def run(F, chk):
     R3 = chk.rule('R3', 'close: file context taken first, drain loop left only on Disconnected, all thread handles joined before the reply')
     R4 = chk.rule('R4', 'integers parsed from the request reach allocation sizes, slice indices/range bounds and checked multiplications only behind a bound')
     check_client_integers(F, R4)
+    R5 = chk.rule('R5', 'a stream is removed from the session by index only with a position just looked up on the list (otherwise through retain)')
+    check_stream_removal(F, R5)
     hs = find_handler(F)
     R1.floor('command handler (anchor: fn(.., String, &mut Option<FileContext>, &mut WebSocket))', len(hs), 1)
     for h in hs:
@@ -512,3 +514,44 @@ def phi_index_ok(cfg, E, op, at, depth=0):
             continue
         return False
     return True
+
+
+# ---------------------------------------------------------------------------------------------
+# R5: streams are removed by a fresh position only
+
+def check_stream_removal(F, R5):
+    """"a stream id is usable exactly between its creation and stop/close": an element leaves the stream list of the session
+    either through `retain` (by a predicate on the element) or through `remove(pos)` with `pos` obtained from `position()`
+    on that list in the same step.  Indices collected earlier (e.g. during a loop over the list) go stale with the first
+    removal: the wrong stream disappears, or `Vec::remove` panics in the connection thread."""
+    n = 0
+    bodies = [b for b in F.order if b.crate == 'bin' and b.path.startswith('adlt_bin::remote::') and '::tests::' not in b.path]
+    for b in bodies:
+        cfg = E = None
+        for blk in b.calls():
+            t = blk.term
+            p = t.callee.path
+            if not re.search(r'(Vec::<T, A>::remove|Vec::<T, A>::swap_remove|VecDeque::<T, A>::remove)$', p) or not t.args:
+                continue
+            if 'StreamContext' not in (t.args[0].ty or ''):
+                continue
+            if cfg is None:
+                cfg = CFG(b)
+                E = ExprBuilder(cfg, fold_named=True)
+            n += 1
+            R5.sites += 1
+            R5.fn(b.path)
+            idx = E.operand(t.args[1])
+            top = idx
+            while isinstance(top, tuple) and top[0] in ('cast', 'ref'):
+                top = top[1]
+            fresh = isinstance(top, tuple) and top[0] == 'proj' and isinstance(top[1], tuple) and top[1][0] == 'call' and top[1][1].endswith('Iterator::position')
+            in_loop = any(blk.i in lb for lb in cfg.loops().values())
+            # a loop is fine when the position is recomputed inside it (the handler's command loop); stale = index that was not
+            # produced by position() at all
+            if fresh:
+                R5.ok(sample={'function': b.path, 'at': b.loc(t.sp), 'index': 'position(..) on the stream list', 'inside_loop': in_loop})
+            else:
+                R5.violation(('stream-removed-by-stored-index', b.closure_of or b.path), '%s removes a stream at %s by the index %s, which is not a position just looked up on the list: after the first removal of a pass '
+                             'such an index denotes another stream (a live stream vanishes) or lies beyond the end (panic in the connection thread)' % (b.path, b.loc(t.sp), show(idx)[:60]), where=b.loc(t.sp))
+    R5.floor('index removals from the stream list', n, 1)
